@@ -867,6 +867,82 @@ def overlapping_server_disconnects(ctx, k):
         h.close()
 
 
+def stale_answer_then_connect(ctx, k):
+    """The server's CONNECT answer for one namespace has been received but
+    its message thread / task has not run yet when the transport is lost
+    (python-engineio dispatches every message on its own thread or task);
+    it runs after the loss has been processed.  The application then calls
+    connect() on the same client object again: the new connection is a new
+    connection - every namespace's connect handler runs for it and the
+    session ids are the new ones."""
+    rng = ctx.case_rng(11 * 10 ** 7 + k)
+    kind = rng.choice(['sync', 'async'])
+
+    class Srv(E.ServerScript):
+        hold = True
+        n = 0
+
+        def on_packet(self, h, pkt):
+            if pkt['type'] == R.CONNECT and not self.hold:
+                self.n += 1
+                h.deliver(R.CONNECT, pkt['nsp'], None,
+                          {'sid': 'new-%d' % self.n})
+    srv = Srv()
+    h = E.make_client(kind, script=srv, client_kw={'reconnection': False})
+    ran = []
+    for ns in ('/', '/b'):
+        h.on('connect', (lambda ns: lambda: ran.append(
+            (ns, len(h.attempts))))(ns), ns, False)
+        h.on('disconnect', lambda *a: None, ns, False)
+    late = rng.choice(['/', '/b'])
+    w = {'part': 'stale_answer_then_connect', 'case_index': k, 'kind': kind,
+         'late_answer_for': late}
+    try:
+        h.api('connect', 'http://host', namespaces=['/', '/b'], wait=False)
+        if kind == 'sync':
+            h.deliver(R.CONNECT, late, None, {'sid': 'old-sid'})
+            h.lose(pump=False)
+            h.pump()
+        else:
+            async def go():
+                h.deliver(R.CONNECT, late, None, {'sid': 'old-sid'})
+                await h.a_lose()
+            h.run(go())
+        h.clear_errors()
+        srv.hold = False
+        del ran[:]
+        try:
+            h.api('connect', 'http://host', namespaces=['/', '/b'],
+                  wait=True)
+            exc = None
+        except Exception as e:
+            exc = repr(e)
+        sids = {}
+        for ns in ('/', '/b'):
+            try:
+                sids[ns] = h.c.get_sid(ns)
+            except Exception as e:
+                sids[ns] = 'raised ' + type(e).__name__
+        ctx.count('connects_after_a_stale_answer')
+        w.update(connect_raised=exc, connect_handlers=ran, sids=sids)
+        if exc or sorted(n for n, _ in ran) != ['/', '/b'] or \
+                any(not str(v).startswith('new-') for v in sids.values()):
+            ctx.violation(None, 'connect() on a client whose previous '
+                          'connection was lost while the CONNECT answer for '
+                          '%r was still waiting for its message thread: '
+                          'raised %s, connect handlers ran for %r, session '
+                          'ids %r' % (late, exc, [n for n, _ in ran], sids),
+                          w)
+        else:
+            ctx.case(('stale_answer_then_connect', kind, late), None)
+    finally:
+        try:
+            h.api('disconnect')
+        except Exception:
+            pass
+        h.close()
+
+
 def empty_namespace_list(ctx, k):
     """connect(namespaces=[]): the application asked for no namespace (a
     list computed at run time that came out empty).  No CONNECT is sent, no
@@ -1006,6 +1082,8 @@ def run_case(ctx, k):
         return overlapping_server_disconnects(ctx, k)
     if k % 40 in (33, 34):
         return empty_namespace_list(ctx, k)
+    if k % 40 in (35, 36):
+        return stale_answer_then_connect(ctx, k)
     rng = ctx.case_rng(k)
     h = History(ctx, rng, 'sync' if k % 2 == 0 else 'async', k)
     try:
@@ -1035,6 +1113,7 @@ def run(ctx):
     ctx.require('successful_connects', 30)
     ctx.require('histories_with_lifecycle_handlers_under_catch_all', 5)
     ctx.require('connects_with_an_empty_namespace_list', 5)
+    ctx.require('connects_after_a_stale_answer', 5)
     ctx.require('reconnection_namespace_sets_checked', 5)
     ctx.require('failed_connects', 10)
     ctx.require('nowait_connects', 10)
@@ -1061,6 +1140,8 @@ def replay(ctx, w):
                                               w['witness']['case_index'])
     if w['witness'].get('part') == 'slow_connect_handler':
         return slow_connect_handler(ctx, w['witness']['case_index'])
+    if w['witness'].get('part') == 'stale_answer_then_connect':
+        return stale_answer_then_connect(ctx, w['witness']['case_index'])
     if w['witness'].get('part') == 'empty_namespace_list':
         return empty_namespace_list(ctx, w['witness']['case_index'])
     run_case(ctx, w['witness']['case_index'])
